@@ -63,6 +63,18 @@ void w_find(void)
     __CPROVER_assert(hb[i]->call_count == in_cnt[i] && cm[i]->reported == in_reported[i], "[C02] FRAME find.changes_no_expectation");
   }
   __CPROVER_assert(vp_rep_n == 0 && vp_ok_n == 0 && vp_exc == 0, "[C02] FRAME find.reports_nothing");
+  /* C08: the WITH clauses of each examined expectation are evaluated in declaration order and stop at the first
+     that fails; expectations are examined newest first until one matches without passing over anything */
+  int e = 0; _Bool done = 0;
+  for (int i = 0; i < N; i++) if (in_where[i] == 0 && !done) {
+    for (int k = 0; k < MAXC; k++) if (k < in_ncond[i]) {
+      __CPROVER_assert(e < vp_ev_n && vp_ev[e].kind == VP_EV_COND && vp_ev[e].obj == cond[i][k], "[C08] POST find.with_clauses_evaluated_in_declaration_order");
+      e++;
+      if (!in_cres[i][k]) break;
+    }
+    if (spec_matches(i) && spec_cost(i) == 0) done = 1;
+  }
+  __CPROVER_assert(e == vp_ev_n, "[C08] POST find.with_clauses_stop_at_the_first_that_fails");
   __CPROVER_assert(!(c >= 0 && spec_cost(c) > 0 && spec_cost(c) != ~0U), "REACH find.passes_over_pending_predecessors");
   __CPROVER_assert(!(c >= 0 && c > 0 && in_where[0] == 0 && spec_matches(0)), "REACH find.older_beats_newer_match");
   __CPROVER_assert(c >= 0, "REACH find.no_match");
@@ -303,5 +315,122 @@ void w_queries(void)
   __CPROVER_assert(vp_rep_n == 0 && vp_exc == 0 && vp_lock_depth == 0, "[C03,C06] FRAME query.reports_nothing");
   __CPROVER_assert(0, "REACH! queries.end");
 }
+
+/* ================================================================== report TEXT (C04, C15, C17): compiled with VP_TOK_CAP=24 */
+#if VP_TOK_CAP >= 24
+static _Bool is_marker(const void *p)
+{
+  for (int i = 0; i < N; i++) { if (p == nm_name[i]) return 1; for (int c = 0; c < MAXC; c++) if (p == nm_cond[i][c]) return 1; }
+  return 0;
+}
+/* a no-match report lists either every saturated expectation that would have matched, or else every live
+ * expectation newest first, each with its first failing WITH clause (parameters always fit: wildcard) */
+void w_nomatch_text(void)
+{
+  build_world();
+  int x = nondet_int();
+  g_tracer_obj_ptr = 0;
+  int c = spec_candidate();
+  __CPROVER_assume(c < 0);
+  int ret = MOCK_FUNC(exps, nm_func, nm_sig, &x);
+  __CPROVER_assert(vp_rep_n == 1 && vp_rep[0].sev == 0, "[C15] POST nomatch.one_fatal_report");
+  const struct vp_string *m = &vp_rep[0].msg;
+  __CPROVER_assert(!m->overflow, "[C15] MODEL token capacity sufficient");
+  /* expected listing */
+  const void *exp[N * 2 + 1]; int ne = 0; _Bool sat_match = 0;
+  for (int i = 0; i < N; i++) if (in_where[i] == 1 && spec_matches(i)) { exp[ne++] = nm_name[i]; sat_match = 1; }
+  if (!sat_match)
+    for (int i = 0; i < N; i++) if (in_where[i] == 0) {
+      exp[ne++] = nm_name[i];
+      for (int k = 0; k < MAXC; k++) if (k < in_ncond[i] && !in_cres[i][k]) { exp[ne++] = nm_cond[i][k]; break; }
+    }
+  int seen = 0; _Bool ok = 1; int n_int = 0; long ints[2]; _Bool func_named = 0;
+  for (int k = 0; k < VP_TOK_CAP; k++) if (k < m->n) {
+    if (m->t[k].kind == VP_T_CSTR && is_marker(m->t[k].p)) { if (seen >= ne || exp[seen] != m->t[k].p) ok = 0; seen++; }
+    if (m->t[k].kind == VP_T_INT) { if (n_int < 2) ints[n_int] = (long)m->t[k].v; n_int++; }
+    if (m->t[k].kind == VP_T_CSTR && m->t[k].p == nm_func) func_named = 1;
+  }
+  __CPROVER_assert(ok && seen == ne, "[C15] POST nomatch.lists_matching_saturated_else_every_live_expectation_newest_first_with_first_failing_WITH");
+  __CPROVER_assert(func_named, "[C15] POST nomatch.names_the_function");
+  __CPROVER_assert(n_int == 2 && ints[0] == 1 && ints[1] == (long)x, "[C15] POST nomatch.prints_every_actual_argument");
+  for (int i = 0; i < N; i++) if (!sat_match && in_where[i] == 0) __CPROVER_assert(cm[i]->reported, "[C04,C15] POST nomatch.listed_expectations_are_marked_reported");
+  __CPROVER_assert(!sat_match, "REACH nomatch.saturated_listing");
+  __CPROVER_assert(!(ne >= 3), "REACH nomatch.listing_with_failed_with");
+  __CPROVER_assert(0, "REACH! nomatch.end");
+}
+
+/* destroying a sequence object reports exactly the expectations still registered in it, in registration order */
+void w_seqdtor_text(void)
+{
+  build_world();
+  ST_DTOR(seq[0]);
+  const void *exp[N]; int ne = 0;
+  for (int i = N - 1; i >= 0; i--) for (int k = 0; k < 2; k++) if (k < in_K[i] && seq_of(i, k) == 0 && in_linked[i][k]) exp[ne++] = nm_name[i];
+  __CPROVER_assert(vp_rep_n == (ne > 0 ? 1 : 0), "[C06] POST seqdtor.one_report_iff_expectations_still_registered");
+  if (ne > 0) {
+    const struct vp_string *m = &vp_rep[0].msg;
+    __CPROVER_assert(!m->overflow, "[C06] MODEL token capacity sufficient");
+    int seen = 0; _Bool ok = 1;
+    for (int k = 0; k < VP_TOK_CAP; k++) if (k < m->n && m->t[k].kind == VP_T_CSTR && is_marker(m->t[k].p)) { if (seen >= ne || exp[seen] != m->t[k].p) ok = 0; seen++; }
+    __CPROVER_assert(ok && seen == ne, "[C06,C15] POST seqdtor.lists_exactly_the_registered_expectations_in_registration_order");
+    __CPROVER_assert(m->n >= 1 && m->t[0].kind == VP_T_CSTR && m->t[0].p == nm_seq[0], "[C06,C15] POST seqdtor.names_the_sequence");
+  }
+  __CPROVER_assert(ne < 2, "REACH seqdtor_text.two_registered");
+  __CPROVER_assert(0, "REACH! seqdtor_text.end");
+}
+
+/* the end-of-life report gives the expectation's text and the required and actual counts */
+void w_unfulfilled_text(void)
+{
+  build_world();
+  const int t = W_T;
+  __CPROVER_assume(!in_reported[t] && in_where[t] != 2 && in_cnt[t] < in_min[t]);
+  CM_DTOR(cm[t]);
+  __CPROVER_assert(vp_rep_n == 1 && vp_rep[0].sev == 1 && vp_rep[0].file == nm_file[t] && vp_rep[0].line == 100 + t, "[C04,C15] POST unfulfilled.one_nonfatal_report_with_location");
+  const struct vp_string *m = &vp_rep[0].msg;
+  __CPROVER_assert(!m->overflow, "[C04] MODEL token capacity sufficient");
+  unsigned long exp[2]; int ne = 0;
+  if (in_min[t] != 1) exp[ne++] = in_min[t];
+  if (in_cnt[t] >= 2) exp[ne++] = in_cnt[t];
+  int seen = 0; _Bool ok = 1; _Bool named = 0;
+  for (int k = 0; k < VP_TOK_CAP; k++) if (k < m->n) {
+    if (m->t[k].kind == VP_T_ULONG) { if (seen >= ne || exp[seen] != m->t[k].v) ok = 0; seen++; }
+    if (m->t[k].kind == VP_T_CSTR && m->t[k].p == nm_name[t]) named = 1;
+  }
+  __CPROVER_assert(named, "[C04,C15] POST unfulfilled.report_carries_the_expectation_text");
+  __CPROVER_assert(ok && seen == ne, "[C04] POST unfulfilled.report_gives_required_and_actual_counts");
+  __CPROVER_assert(0, "REACH! unfulfilled_text.end");
+}
+
+/* the trace record of an accepted call: expectation text, arguments, then the value or the exception note */
+void w_trace_text(void)
+{
+  build_world();
+  int x = nondet_int();
+  the_tracer = VP_NEW(struct S_tracer); the_tracer->vp_tag = VP_TAG_USER_S_tracer; the_tracer->previous = 0; g_tracer_obj_ptr = the_tracer;
+  int c = spec_candidate();
+  __CPROVER_assume(c >= 0 && in_max[c] != 0 && spec_cost(c) != ~0U);
+  int ret = MOCK_FUNC(exps, nm_func, nm_sig, &x);
+  __CPROVER_assert(vp_tr_n == 1 && vp_tr[0].tracer == the_tracer && vp_tr[0].file == nm_file[c] && vp_tr[0].line == 100 + c, "[C17] POST trace.one_record_to_the_tracer_with_handler_location");
+  const struct vp_string *m = &vp_tr[0].msg;
+  __CPROVER_assert(!m->overflow, "[C17] MODEL token capacity sufficient");
+  int thrown = 0;
+  for (int a = 0; a < MAXA; a++) if (a < in_nact[c] && !thrown && in_athrow[c][a]) thrown = in_athrow[c][a];
+  if (!thrown && in_rthrow[c]) thrown = in_rthrow[c];
+  int n_int = 0; long ints[3]; _Bool what = 0; int after = 0; int arg_pos = -1;
+  for (int k = 0; k < VP_TOK_CAP; k++) if (k < m->n) {
+    if (m->t[k].kind == VP_T_INT) { if (n_int < 3) ints[n_int] = (long)m->t[k].v; if (n_int == 1) arg_pos = k; n_int++; }
+    if (m->t[k].kind == VP_T_CSTR && m->t[k].p == (void *)&vp_stdexc_obj) what = 1;
+  }
+  for (int k = 0; k < VP_TOK_CAP; k++) if (k < m->n && arg_pos >= 0 && k > arg_pos + 1) after++;
+  __CPROVER_assert(m->n >= 1 && m->t[0].kind == VP_T_CSTR && m->t[0].p == nm_name[c], "[C17] POST trace.record_starts_with_the_handling_expectation_text");
+  __CPROVER_assert(n_int >= 2 && ints[0] == 1 && ints[1] == (long)x, "[C17] POST trace.record_carries_the_actual_arguments");
+  if (!thrown) __CPROVER_assert(n_int == 3 && ints[2] == (long)ret && !what, "[C17] POST trace.record_carries_the_returned_value");
+  if (thrown == VP_EXC_USER_STD) __CPROVER_assert(n_int == 2 && what, "[C17] POST trace.record_carries_what_of_a_std_exception");
+  if (thrown == VP_EXC_USER_OTHER) __CPROVER_assert(n_int == 2 && !what && after >= 1, "[C17] POST trace.non_std_exception_is_noted_as_unknown");
+  __CPROVER_assert(thrown != VP_EXC_USER_STD, "REACH trace.std_exception"); __CPROVER_assert(thrown != VP_EXC_USER_OTHER, "REACH trace.unknown_exception");
+  __CPROVER_assert(0, "REACH! trace_text.end");
+}
+#endif
 
 int main(void) { VP_ENTRY(); return 0; }
